@@ -96,6 +96,8 @@ func (ro *Roles) defsReads(r *Report, rule string) {
 				r.OK(rule, key, w.InstrPos(in), "allowed live read: "+why)
 			} else if host, why := helperOfAllowed(top, 0); host != nil {
 				r.OK(rule, key, w.InstrPos(in), "helper called only by "+FuncName(host)+" — allowed live read: "+why)
+			} else if ro.readsDefsOnlyForAdmission(top) {
+				r.OK(rule, key, w.InstrPos(in), "the dequeue path hands the current definition to the admission function (the same live read the admission function is allowed)")
 			} else {
 				r.Viol(rule, key, w.InstrPos(in), "reads r.defs although it is not one of the functions allowed to consult the current definitions: a job that was accepted before a reload would run with (or be governed by) the new definition instead of its own snapshot")
 			}
@@ -147,6 +149,37 @@ func (ro *Roles) defsReads(r *Report, rule string) {
 		})
 		r.Check(!caps && readsEnv, rule+".factory", FuncName(fn)+": task runner factory", w.Pos(fn.Pos()), "builds the runner environment from the job's own Env and captures no definitions", fmt.Sprintf("the task runner factory captures definitions=%v, reads the job's Env=%v: a running job would see a reloaded environment", caps, readsEnv))
 	}
+}
+
+// readsDefsOnlyForAdmission: fn belongs to the dequeue path and every read of the live
+// definitions in it is (part of) an argument of a call of the admission function.
+func (ro *Roles) readsDefsOnlyForAdmission(fn *ssa.Function) bool {
+	w := ro.w
+	isDq := fn == ro.DequeueDecision
+	for _, d := range ro.Dequeue {
+		if d == fn && fn != ro.Start {
+			isDq = true
+		}
+	}
+	if !isDq || ro.Admit == nil {
+		return false
+	}
+	reads, passed := 0, 0
+	allInstrs(fn, func(in ssa.Instruction) {
+		if ld, ok := in.(*ssa.UnOp); ok {
+			if k, _, ok := ro.la.rootField(ld.X); ok && k == "PipelineRunner.defs" {
+				reads++
+			}
+		}
+		if c := callCommonOf(in); c != nil && c.StaticCallee() == ro.Admit {
+			for _, a := range c.Args {
+				if strings.HasPrefix(w.AP(a), "recv.defs.") {
+					passed++
+				}
+			}
+		}
+	})
+	return reads > 0 && reads == passed
 }
 
 func (ro *Roles) reloadModset(r *Report, rule string) {
